@@ -383,3 +383,146 @@ make_ctor('Mass_basis')
 from contracts.shared import reregister as _rr_static
 from contracts import c19 as _c19_static
 _rr_static('C09', 'C19', 'C19.no_stateful_local_statics', 'C09.lemma.no_state_between_calls', replay=None)
+
+# ------------------------------------------------------------------------------------------------ the twelve Yukawa getters: published form
+YGET_REPLAY = r'''
+#include <cstdio>
+#include <cmath>
+#include <complex>
+#include <Eigen/Core>
+#define private public
+#include "gm2calc/THDM.hpp"
+#undef private
+#include "gm2calc/SM.hpp"
+#include "gm2calc/gm2_error.hpp"
+// mass-basis points on BOTH sides of the alignment limit (sin(beta-alpha) of either sign): the twelve Yukawa getters of the REAL model against
+// Y^h = M s + rho c / sqrt2, Y^H = M c - rho s / sqrt2 with ONE pair (s, c) = (sin, cos)(beta - alpha) for up-, down-type quarks and leptons
+typedef Eigen::Matrix<std::complex<double>,3,3> M3;
+int main() {
+   int bad = 0;
+   gm2calc::SM sm;
+   for (double sba : {0.999, -0.999, 0.6, -0.6, 1.0, -1.0}) for (int type = 1; type <= 5; type++) {
+      gm2calc::thdm::Mass_basis b; b.yukawa_type = gm2calc::thdm::int_to_cpp_yukawa_type(type);
+      b.mh = 125; b.mH = 400; b.mA = 420; b.mHp = 440; b.sin_beta_minus_alpha = sba; b.tan_beta = 3; b.m122 = 40000; b.zeta_u = 0.3; b.zeta_d = -0.2; b.zeta_l = 0.5;
+      try {
+         gm2calc::thdm::Config cfg; cfg.running_couplings = false;
+         const gm2calc::THDM th(b, sm, cfg);
+         const double s = th.get_sin_beta_minus_alpha(), c = th.get_cos_beta_minus_alpha(), v = th.get_v(), r2 = std::sqrt(2.0);
+         M3 mu = M3::Zero(), md = M3::Zero(), ml = M3::Zero();
+         for (int i = 0; i < 3; i++) { mu(i, i) = th.get_mu(0.0)(i); md(i, i) = th.get_md(0.0)(i); ml(i, i) = th.get_ml(0.0)(i); }
+         // rho_f recovered from the A couplings (published: Y^A_u = rho_u/sqrt2, Y^A_d,l = -rho_d,l/sqrt2)
+         const M3 ru = th.get_yuA() * r2, rd = -th.get_ydA() * r2, rl = -th.get_ylA() * r2;
+         const double d[6] = {(th.get_yuh() - (s * mu / v + c * ru / r2)).cwiseAbs().maxCoeff(), (th.get_ydh() - (s * md / v + c * rd / r2)).cwiseAbs().maxCoeff(), (th.get_ylh() - (s * ml / v + c * rl / r2)).cwiseAbs().maxCoeff(),
+                              (th.get_yuH() - (c * mu / v - s * ru / r2)).cwiseAbs().maxCoeff(), (th.get_ydH() - (c * md / v - s * rd / r2)).cwiseAbs().maxCoeff(), (th.get_ylH() - (c * ml / v - s * rl / r2)).cwiseAbs().maxCoeff()};
+         for (int i = 0; i < 6; i++) if (!(d[i] <= 1e-12)) { bad++; std::printf("input sin(beta-alpha)=%g type %d: getter %d (0..2: y^h u,d,l; 3..5: y^H u,d,l) off by %.3g (model reports s=%.6g c=%.6g)\n", sba, type, i, d[i], s, c); }
+      } catch (const gm2calc::Error& e) { std::printf("exception: %s\n", e.what()); }
+   }
+   std::printf("%d getters out of contract\n", bad);
+   return bad ? 1 : 0;
+}
+'''
+
+def yget_replay(model, wd):
+    from gm2v import native
+    import subprocess
+    exe = native.build_against_library(wd, YGET_REPLAY)
+    r = subprocess.run([exe], capture_output=True, text=True, timeout=300)
+    return r.returncode == 1, r.stdout.strip()[-1500:]
+
+@obligation('C09.yukawa_getters.published_form', fns=[(TH, 'THDM::get_y%s%s' % (f, s)) for f in 'udl' for s in ('h', 'H', 'A', 'Hp')], replay=yget_replay)
+def _(ctx):
+    """ensures for ALL values of the mixing-angle getters (no relation between them assumed), masses, rho_f and CKM entries (arXiv:1607.06292, Eqs. for Y_f^S):
+    Y_f^h = M_f s/v + rho_f c/sqrt2,  Y_f^H = M_f c/v - rho_f s/sqrt2  with the SAME (s, c) = (get_sin_beta_minus_alpha(), get_cos_beta_minus_alpha()) for f = u, d, l and
+    M_f = diag(get_m_f(mass of that Higgs boson));  Y_u^A = rho_u/sqrt2, Y_d^A = -rho_d/sqrt2, Y_l^A = -rho_l/sqrt2;  Y_u^H+ = -rho_u^dagger V_CKM, Y_d^H+ = V_CKM rho_d, Y_l^H+ = rho_l"""
+    it = Interp(ctx.w, mode='sym', div_sides=False)
+    th = it.new_object('THDM', symbolic_fields(None, prefix=''))
+    S, C, V = z3.Real('sba'), z3.Real('cba'), z3.Real('vev')
+    rho = {f: Mat(3, 3, [[Cx(z3.Real('rho_%s%d%dr' % (f, i, j)), z3.Real('rho_%s%d%di' % (f, i, j))) for j in range(3)] for i in range(3)], 'matrix', True) for f in 'udl'}
+    def mk(nm):
+        def stub(it_, args, this):
+            sc = args[0] if args else 0
+            return Mat(3, 1, [[it_.uf('%s_%d' % (nm, i), sc)] for i in range(3)], 'matrix', False)
+        return stub
+    it.stubs.update({'THDM::get_mu': mk('run_mu'), 'THDM::get_md': mk('run_md'), 'THDM::get_ml': mk('run_ml'),
+                     'THDM_mass_eigenstates::get_sin_beta_minus_alpha': lambda i, a, t: S, 'THDM_mass_eigenstates::get_cos_beta_minus_alpha': lambda i, a, t: C,
+                     'THDM_mass_eigenstates::get_v': lambda i, a, t: V,
+                     'THDM::get_rho_u': lambda i, a, t: deep_copy(rho['u']), 'THDM::get_rho_d': lambda i, a, t: deep_copy(rho['d']), 'THDM::get_rho_l': lambda i, a, t: deep_copy(rho['l'])})
+    ckm = th.f['sm'].f['ckm']
+    r2 = z3.Real('c_SQRT2')
+    boson = {'h': ('Mhh', 0), 'H': ('Mhh', 1), 'A': ('MAh', 1), 'Hp': ('MHm', 1)}
+    def cpx(x):
+        return (z3real(x.re), z3real(x.im)) if isinstance(x, Cx) else (z3real(x), z3.RealVal(0))
+    for f in 'udl':
+        for s in ('h', 'H', 'A', 'Hp'):
+            nm = 'get_y%s%s' % (f, s)
+            try:
+                sym, r, exc = one(it, lambda: it.call_method(th, nm, []))
+            except Exception as e:
+                ctx.record(nm, ERROR, 'B', 0, 'extraction: %s' % e)
+                continue
+            fld, idx = boson[s]
+            mass = th.f[fld].get(idx, 0)
+            M = [it.uf('run_m%s_%d' % (f, i), mass) for i in range(3)]
+            pairs = []
+            R = rho[f]
+            for i in range(3):
+                for j in range(3):
+                    got = cpx(r.get(i, j))
+                    rr, ri = cpx(R.get(i, j))
+                    mij = z3real(M[i]) if i == j else z3.RealVal(0)
+                    if s == 'h':
+                        want = (S * mij / V + C * rr / r2, C * ri / r2)
+                    elif s == 'H':
+                        want = (C * mij / V - S * rr / r2, -S * ri / r2)
+                    elif s == 'A':
+                        sg = 1 if f == 'u' else -1
+                        want = (sg * rr / r2, sg * ri / r2)
+                    else:
+                        if f == 'l':
+                            want = (rr, ri)
+                        elif f == 'd':
+                            wr, wi = z3.RealVal(0), z3.RealVal(0)
+                            for k in range(3):
+                                cr, ci = cpx(ckm.get(i, k))
+                                pr, pi_ = cpx(R.get(k, j))
+                                wr, wi = wr + cr * pr - ci * pi_, wi + cr * pi_ + ci * pr
+                            want = (wr, wi)
+                        else:
+                            wr, wi = z3.RealVal(0), z3.RealVal(0)
+                            for k in range(3):
+                                pr, pi_ = cpx(R.get(k, i))           # (rho^dagger)_{ik} = conj(rho_{ki})
+                                cr, ci = cpx(ckm.get(k, j))
+                                wr, wi = wr - (pr * cr + pi_ * ci), wi - (pr * ci - pi_ * cr)
+                            want = (wr, wi)
+                    pairs += [(got[0], want[0]), (got[1], want[1])]
+            st = ctx.prove_ring(nm, pairs, relations=[r2 * r2 - 2, z3.Real('c_ISQRT2') * r2 - 1])
+            if st == UNDECIDED:
+                # not an identity modulo the relations of the constants: look for a point (standard interpretation of sqrt etc.) where the two sides differ
+                from gm2v import numeval
+                import random, mpmath
+                rng = random.Random(7)
+                res = ctx.results[-1]
+                for trial in range(6):
+                    env = {}
+                    names = set()
+                    for a_, b_ in pairs:
+                        numeval.free_vars(a_, names); numeval.free_vars(b_, names)
+                    for n_ in sorted(names):
+                        env[n_] = Fr(rng.randint(-9, 9), 10) if n_ not in ('vev',) else Fr(246)
+                    env['sba'], env['cba'] = (Fr(-3, 5), Fr(4, 5)) if trial % 2 == 0 else (Fr(3, 5), Fr(4, 5))
+                    env['c_SQRT2'] = mpmath.sqrt(2); env['c_ISQRT2'] = 1 / mpmath.sqrt(2)
+                    try:
+                        xuf = {'run_m%s_%d' % (f_, i_): (lambda *a, k=(3 * 'udl'.index(f_) + i_): mpmath.mpf(k + 1) / 7) for f_ in 'udl' for i_ in range(3)}
+                        bad_pair = next(((a_, b_) for a_, b_ in pairs if abs(numeval.ev(a_, env, xuf) - numeval.ev(b_, env, xuf)) > mpmath.mpf(10) ** -20), None)
+                    except numeval.CannotEval:
+                        continue
+                    if bad_pair is not None:
+                        res.status = FAILED
+                        res.detail = 'the getter differs from the published form, e.g. at sin(beta-alpha) = %s, cos(beta-alpha) = %s: code %s, published %s' % (
+                            env['sba'], env['cba'], mpmath.nstr(numeval.ev(bad_pair[0], env, xuf), 12), mpmath.nstr(numeval.ev(bad_pair[1], env, xuf), 12))
+                        res.solver = 'numeric evaluation (mpmath) at a sample point'
+                        res.model = {'_float': {'sba': float(env['sba']), 'cba': float(env['cba'])}}
+                        break
+    ctx.merge_rules(it)
+
+from contracts.shared import reregister as _rr2
